@@ -630,6 +630,11 @@ func (g *GoFakeS3) createObjectBrowserUpload(bucket string, w http.ResponseWrite
 		return ErrIncorrectNumberOfFilesInPostRequest
 	}
 	key := keyValues[0]
+	if key == "" {
+		// An object without a key could be listed but never be read or deleted
+		// (the bucket would not empty again):
+		return ErrorInvalidArgument("key", key, "The key of the object must not be empty.")
+	}
 
 	g.log.Print(LogInfo, "(BUC)", bucket)
 	g.log.Print(LogInfo, "(KEY)", key)
